@@ -9,6 +9,7 @@ and every event keeps it: `consistent_reachable`).  "The most recent attempt" is
 splitting the history as `pre ++ e :: post` where nothing in `post` concerns the same entry.
 -/
 import KrillModel.Status.Lemmas
+import KrillModel.Generated.StatusWrites
 namespace KM.Props.C19
 open KM.Status
 
@@ -84,9 +85,14 @@ theorem repo_failure_iff_last_attempt_failed (s0 : Store) (h0 : Consistent s0)
   | success => simp
   | failure e2 => simp
 
-/-- `last_success` is the time of the most recent *successful* exchange with the parent: later
-failed attempts do not move it. -/
-theorem parent_last_success_is_last_successful (s0 : Store) (h0 : Consistent s0)
+/-- Full statement (FALSE of the code, see `last_success_moves_without_an_answer`): `last_success`
+is the time of the most recent exchange in which the parent answered positively.
+
+What holds: `last_success` is the time of the most recent exchange *the code records as a
+success*; later failed attempts do not move it.  `send_revoke_requests` records a success also
+when there was no revocation request to send (`ca_sync_parent` with only certificate requests
+pending calls it first) – without the parent having been asked anything. -/
+theorem parent_last_success_is_last_successful_partial (s0 : Store) (h0 : Consistent s0)
     (pre post : List Ev) (e : Ev) (ca p : String) (x : Exchange)
     (he : e.parentAttempt? = some (ca, p, x)) (hs : x.result = .success)
     (hpost : ∀ e' ∈ post, e'.parentSuccess ca p = false ∧ e'.removesParent ca p = false) :
@@ -99,6 +105,40 @@ theorem parent_last_success_is_last_successful (s0 : Store) (h0 : Consistent s0)
   rw [foldl_preserves (fun o e => parentProj e ca p o) (fun o => o.bind (·.lastSuccess)) post
     (fun e' he' o => parentProj_keeps_lastSuccess e' ca p o (hpost e' he').1 (hpost e' he').2), hst]
   simpa using hx hs
+
+/-- Under the hypothesis that no vacuous "success" of the revocation phase follows (every later
+`send_revoke_requests` for this parent either had a request to send or failed), `last_success` is
+the time of the most recent exchange in which the parent really answered positively. -/
+theorem parent_last_success_is_last_answer (s0 : Store) (h0 : Consistent s0)
+    (pre post : List Ev) (e : Ev) (ca p : String) (x : Exchange)
+    (he : e.parentAttempt? = some (ca, p, x)) (hs : x.result = .success)
+    (hpost : ∀ e' ∈ post, e'.parentAnswered ca p = false ∧ e'.removesParent ca p = false ∧
+      (e'.parentSuccess ca p = true → e'.parentAnswered ca p = true)) :
+    ((run s0 (pre ++ e :: post)).parent? ca p).bind (·.lastSuccess) = some x.time := by
+  apply parent_last_success_is_last_successful_partial s0 h0 pre post e ca p x he hs
+  intro e' he'
+  obtain ⟨h1, h2, h3⟩ := hpost e' he'
+  refine ⟨?_, h2⟩
+  cases hps : e'.parentSuccess ca p with
+  | false => rfl
+  | true => rw [h3 hps] at h1; cases h1
+
+example : ∀ e' ∈ [Ev.parentList "c" "p" "u" true (.error "x") 9, Ev.parentRevokes "c" "q" "u" 0 (.ok ()) 10,
+      Ev.parentRevokes "c" "p" "u" 2 (.error "y") 11],
+    e'.parentAnswered "c" "p" = false ∧ e'.removesParent "c" "p" = false ∧
+      (e'.parentSuccess "c" "p" = true → e'.parentAnswered "c" "p" = true) := by decide
+
+/-- **F-C19-2.** The child has a certificate request pending (no revocation request) and the
+parent refuses it (the child was removed there, or the parent is gone): `ca_sync_parent` first
+records the success of sending *no* revocation request, then the failure – `last_success` moves
+to the time of a synchronisation in which nothing succeeded. -/
+theorem last_success_moves_without_an_answer :
+    let evs := [Ev.parentList "b" "a" "u" true (.ok [("0", [1])]) 5] ++
+      syncParentEvents "b" "a" "u" true 0 (.ok ()) (.error "ca-parent-sync") (.ok []) 9
+    (evs.all fun e => !(e.parentAnswered "b" "a") || decide (e.parentAttempt?.map (·.2.2.time) = some 5)) = true ∧
+    ((run Store.empty evs).parent? "b" "a").bind (·.lastSuccess) = some 9 ∧
+    ((run Store.empty evs).parent? "b" "a").bind ParentStatus.optFailure = some "ca-parent-sync" := by
+  decide
 
 theorem repo_last_success_is_last_successful (s0 : Store) (h0 : Consistent s0)
     (pre post : List Ev) (e : Ev) (ca : String) (x : Exchange)
@@ -465,5 +505,118 @@ example :
       .parentRemove "a" "p", .repoList "a" "r" (.ok ()) 3, .restart]
     (run Store.empty evs).parent? "a" "p" = none ∧ (run Store.empty evs).child? "a" "c" ≠ none ∧
     (run Store.empty (evs ++ [.caRemove "a"])).view "a" = {} := by decide
+
+/-! ## the source is what the model implements
+
+Tables regenerated from /repo on every run (`translate/src/status_writes.rs`); the literals below
+are what `Status.lean` models.  A change of a setter, of the arm of a reply on which a setter is
+called, or of the order cache / storage in the store breaks these. -/
+
+/-- `src/api/ca.rs`: what every setter writes – a failure touches nothing but `last_exchange`
+(and the child's suspension marker); `update_published`: `Publish` pushes, `Update` retains then
+pushes, `Withdraw` retains. -/
+theorem source_status_writes_as_modelled : KM.Generated.statusWrites = [
+  ("ParentStatus", "set_failure", ["set:last_exchange:Failure"]),
+  ("ParentStatus", "set_entitlements", ["call:set_last_updated", "clone_from:classes", "set:all_resources"]),
+  ("ParentStatus", "set_last_updated", ["set:last_exchange:Success", "set:last_success"]),
+  ("RepoStatus", "set_failure", ["set:last_exchange:Failure"]),
+  ("RepoStatus", "update_published", ["set:last_exchange:Success", "arm:Publish", "push:published", "arm:Update", "retain:published", "push:published", "arm:Withdraw", "retain:published", "set:last_success"]),
+  ("RepoStatus", "set_last_updated", ["set:last_exchange:Success", "set:last_success"]),
+  ("ChildStatus", "set_success", ["set:last_exchange:Success", "set:last_success", "set:suspended:None"]),
+  ("ChildStatus", "set_failure", ["set:last_exchange:Failure", "set:suspended:None"]),
+  ("ChildStatus", "set_suspended", ["set:suspended"])
+] := by decide
+
+/-- `src/server/ca/manager.rs`: on which reply which status setter is called – success only on a
+list / success reply, the delta applied only in the `Success` arm of `send_rfc8181_delta`, a
+failure in every other arm; child outcome in both arms of `rfc6492_process_request`; the removals. -/
+theorem source_status_calls_as_modelled : KM.Generated.statusCalls = [
+  ("get_ca_status", "if self.has_ca(ca)?", "get_ca_status"),
+  ("delete_ca", "", "remove_ca"),
+  ("ca_child_remove", "", "remove_child"),
+  ("rfc6492_process_request", "Ok", "set_child_success"),
+  ("rfc6492_process_request", "Err", "set_child_failure"),
+  ("ca_parent_remove", "", "remove_parent"),
+  ("ca_suspend_inactive_children", "if letSome(threshold_seconds)=threshold_sec...", "set_child_suspended"),
+  ("ca_schedule_sync_parents", "else", "get_ca_status"),
+  ("send_revoke_requests", "Err", "set_parent_failure"),
+  ("send_revoke_requests", "Ok", "set_parent_last_updated"),
+  ("send_cert_requests_handle_responses", "if errors.is_empty()", "set_parent_last_updated"),
+  ("send_cert_requests_handle_responses", "else", "set_parent_failure"),
+  ("get_entitlements_from_contact", "Err/if existing_parent", "set_parent_failure"),
+  ("get_entitlements_from_contact", "Ok", "set_parent_entitlements"),
+  ("send_rfc8181_list", "Err", "set_status_repo_failure"),
+  ("send_rfc8181_list", "List", "set_status_repo_success"),
+  ("send_rfc8181_list", "Success", "set_status_repo_failure"),
+  ("send_rfc8181_list", "ErrorReply", "set_status_repo_failure"),
+  ("send_rfc8181_delta", "Err", "set_status_repo_failure"),
+  ("send_rfc8181_delta", "Success", "set_status_repo_published"),
+  ("send_rfc8181_delta", "ErrorReply", "set_status_repo_failure"),
+  ("send_rfc8181_delta", "List", "set_status_repo_failure")
+] := by decide
+
+/-- `src/server/ca/status.rs`: every update goes to the cache entry and is then written through;
+removals drop the key / the scope; start-up loads every scope. -/
+theorem source_status_store_as_modelled : KM.Generated.statusStoreOps = [
+  ("create", []),
+  ("warm", ["store.scopes", "self.convert_pre_0_9_5_full_status_if_present", "self.load_full_status"]),
+  ("load_full_status", ["store.get", "store.keys", "store.get", "parents.insert", "store.keys", "store.get", "children.insert", "unwrap().insert"]),
+  ("scope", []),
+  ("repo_status_key", []),
+  ("parent_status_key", []),
+  ("child_status_key", []),
+  ("get_ca_status", []),
+  ("set_parent_failure", ["status.set_failure", "self.update_ca_parent_status"]),
+  ("set_parent_last_updated", ["status.set_last_updated", "self.update_ca_parent_status"]),
+  ("set_parent_entitlements", ["status.set_entitlements", "self.update_ca_parent_status"]),
+  ("remove_parent", ["cache.get_mut", "parents.remove", "store.drop_key"]),
+  ("set_child_success", ["status.set_success", "self.update_ca_child_status"]),
+  ("set_child_failure", ["status.set_failure", "self.update_ca_child_status"]),
+  ("set_child_suspended", ["status.set_suspended", "self.update_ca_child_status"]),
+  ("remove_child", ["cache.get_mut", "children.remove", "store.drop_key"]),
+  ("remove_ca", ["unwrap().remove", "store.drop_scope"]),
+  ("set_status_repo_failure", ["status.set_failure", "self.update_repo_status"]),
+  ("set_status_repo_success", ["status.set_last_updated", "self.update_repo_status"]),
+  ("set_status_repo_published", ["status.update_published", "self.update_repo_status"]),
+  ("update_repo_status", ["cache.contains_key", "cache.insert", "cache.get_mut", "op()", "store.store"]),
+  ("update_ca_child_status", ["cache.contains_key", "cache.insert", "cache.get_mut", "children.contains_key", "children.insert", "children.get_mut", "op()", "store.store"]),
+  ("update_ca_parent_status", ["cache.contains_key", "cache.insert", "cache.get_mut", "parents.get_or_default_mut", "op()", "store.store"])
+] := by decide
+
+/-- Read off the table: the shadow list is only touched in the `Success` arm of the delta reply. -/
+theorem delta_applied_only_on_success_reply :
+    (KM.Generated.statusCalls.filter fun c => c.2.2 == "set_status_repo_published") =
+      [("send_rfc8181_delta", "Success", "set_status_repo_published")] := by decide
+
+/-- Read off the table: no setter named `set_failure` writes `last_success`, the list, the
+entitlements. -/
+theorem failure_setters_write_last_exchange_only :
+    (KM.Generated.statusWrites.filter fun w => w.2.1 == "set_failure").all
+      (fun w => w.2.2.all fun x => x == "set:last_exchange:Failure" || x == "set:suspended:None") = true := by
+  decide
+
+/-- The model's counterpart of the two table facts: a failed exchange changes nothing but
+`last_exchange` – list of published files, last success, entitlements stay. -/
+theorem failed_exchange_changes_only_last_exchange (s : Store) (h : Consistent s) (e : Ev) :
+    (∀ ca x, e.repoAttempt? = some (ca, x) → x.result ≠ .success →
+      ((step s e).repo ca).published = (s.repo ca).published ∧
+      ((step s e).repo ca).lastSuccess = (s.repo ca).lastSuccess) ∧
+    (∀ ca p x, e.parentAttempt? = some (ca, p, x) → x.result ≠ .success →
+      ∃ st, (step s e).parent? ca p = some st ∧
+        st.lastSuccess = ((s.parent? ca p).getD {}).lastSuccess ∧
+        st.classes = ((s.parent? ca p).getD {}).classes ∧
+        st.allResources = ((s.parent? ca p).getD {}).allResources) := by
+  constructor
+  · intro ca x he hx
+    rw [repo_step s h]
+    have := (repoProj_attempt e ca x (s.repo ca) he).2.2 hx
+    exact ⟨this.2, this.1⟩
+  · intro ca p x he hx
+    rw [parent?_step s h]
+    obtain ⟨st, hst, _, _, h4⟩ := parentProj_attempt e ca p x (s.parent? ca p) he
+    exact ⟨st, hst, h4 hx⟩
+
+example : (Ev.repoDelta "a" "u" [.publish "x" "1"] (.error "pub-unknown") 3).repoAttempt? =
+    some ("a", ⟨3, "u", .failure "pub-unknown"⟩) := by decide
 
 end KM.Props.C19
